@@ -160,6 +160,54 @@ def snapshot(graph, si, ai):
     return out
 
 
+def make_heuristic(kind, hv, same_const, cur):
+    """the heuristic argument in every form the unchanged LAOStar accepts: a callable (lambda, functools.partial,
+    object with __call__, bound method) or - constant bound only - a non-callable number of any scalar type
+    (int, float, bool, Fraction, numpy integer / floating scalars, 0-d array).  Types whose value cannot be
+    represented fall back to float.  Returns (heuristic, name of the form actually used)."""
+    import functools
+    import numpy as np
+    from fractions import Fraction
+    look = lambda s: cur["hv"][cur["si"](s)]        # ONE callable; it reads the table of the problem at hand
+    if kind == "partial":
+        return functools.partial(lambda table, s: table["hv"][table["si"](s)], cur), "functools.partial"
+    if kind == "callable_object":
+        class H:
+            def __call__(self, s):
+                return look(s)
+        return H(), "callable_object"
+    if kind == "bound_method":
+        class Tab:
+            def value(self, s):
+                return look(s)
+        return Tab().value, "bound_method"
+    if kind == "callable" or not same_const:
+        return look, "lambda"
+    c = hv[0]
+    integral = c == int(c) and abs(c) < 2**31
+    if kind == "int" and integral:
+        return int(c), "int"
+    if kind == "bool" and c in (0.0, 1.0):
+        return bool(c), "bool"
+    if kind == "Fraction":
+        return Fraction(c), "Fraction"
+    if kind == "np.int64" and integral:
+        return np.int64(int(c)), "np.int64"
+    if kind == "np.int32" and integral:
+        return np.int32(int(c)), "np.int32"
+    if kind == "np.uint8" and integral and 0 <= c < 256:
+        return np.uint8(int(c)), "np.uint8"
+    if kind == "np.bool_" and c in (0.0, 1.0):
+        return np.bool_(bool(c)), "np.bool_"
+    if kind == "np.float64":
+        return np.float64(c), "np.float64"
+    if kind == "array0d":
+        return np.array(c), "array0d"
+    if kind == "np.float32" and float(np.float32(c)) == c:
+        return np.float32(c), "np.float32"
+    return float(c), "float"
+
+
 def plan_result(res, sl, si, ai, with_trace):
     out = {
         "converged": bool(res.converged),
@@ -203,10 +251,7 @@ def one(case, pl):
                                "Z": list(lv["ancestors"].keys()),
                                "nodes": snapshot(lv["explicit_graph"], cur["si"], cur["ai"])})
 
-    if rep.get("h_as") in ("number", "int") and same_const:
-        heur = int(hv[0]) if rep["h_as"] == "int" and hv[0] == int(hv[0]) else hv[0]   # non-callable heuristic
-    else:
-        heur = lambda s: cur["hv"][cur["si"](s)]        # ONE callable; it reads the table of the problem at hand
+    heur, h_type = make_heuristic(rep.get("h_as", "callable"), hv, same_const, cur)
 
     def make(**extra):
         if case.get("default_args"):
@@ -240,6 +285,7 @@ def one(case, pl):
                 res = make(max_lao_star_iterations=budget).plan_on(mdp)
             o = plan_result(res, sl, si, ai, not case.get("default_args"))
             o["inputs_mutated"] = frozen() != before
+            o["h_type"] = h_type
             o["budget"] = budget
             o["budget_mode"] = case.get("budget_mode") if budget is not None else None
             outs.append(o)
